@@ -739,6 +739,32 @@ func ruleIndexFamilies(c *Ctx, r *Reporter) {
 						}
 					}
 				}
+				// no condition beyond "the key is new" and "found in the graveyard": compare with the
+				// facts that hold where the revision index is updated (on every successful path)
+				base := map[string]bool{}
+				icMap := map[ssa.Instruction]idxCall{}
+				for _, ic := range ics {
+					icMap[ic.call] = ic
+				}
+				if ri := find("insert", posRevision); len(ri) > 0 {
+					for _, f := range factsAt(ri[0].call.Block()) {
+						base[fmt.Sprintf("%p/%v", f.Cond, f.Val)] = true
+					}
+				}
+				for _, f := range factsAt(g1[0].call.Block()) {
+					if base[fmt.Sprintf("%p/%v", f.Cond, f.Val)] {
+						continue
+					}
+					if ex, isEx := f.Cond.(*ssa.Extract); isEx && f.Val {
+						if call, ok2 := ex.Tuple.(*ssa.Call); ok2 && call.Call.IsInvoke() && call.Call.Method.Name() == "get" {
+							continue
+						}
+					}
+					if !f.Val && isPrimaryExisted(f.Cond, icMap) {
+						continue
+					}
+					extra = true
+				}
 				if extra {
 					ok = false
 				}
@@ -968,4 +994,26 @@ func ruleNonUniqueFilter(c *Ctx, r *Reporter) {
 	} else {
 		r.anchorMissing("statedb.(nonUniquePartIterator).All")
 	}
+}
+
+// isPrimaryExisted: v is the "an object existed under this primary key" result of the
+// primary index insert/modify (possibly merged by a phi over both call forms).
+func isPrimaryExisted(v ssa.Value, calls map[ssa.Instruction]idxCall) bool {
+	switch x := v.(type) {
+	case *ssa.Extract:
+		call, ok := x.Tuple.(*ssa.Call)
+		if !ok {
+			return false
+		}
+		ic, ok := calls[call]
+		return ok && ic.pos == posPrimary && (ic.method == "insert" || ic.method == "modify")
+	case *ssa.Phi:
+		for _, e := range x.Edges {
+			if !isPrimaryExisted(e, calls) {
+				return false
+			}
+		}
+		return len(x.Edges) > 0
+	}
+	return false
 }
